@@ -10,6 +10,8 @@ CONSTANTS
   Emit = FALSE
   CharSigned = TRUE
   EUSuffixed = {}
+  GenClasses = {"scalar", "array", "bitfield", "nested", "anon", "alignas", "flex"}
+  GenPacked = TRUE
   CheckSim = TRUE
 INVARIANTS Inv_RefineStep Inv_RefineDone Inv_ImplSane Inv_SimFinish
 VIEW AccView
